@@ -345,6 +345,14 @@ func (c *ctx) history(name band.Name, nops int) error {
 	}
 	for i := 0; i < nops; i++ {
 		ev := c.applyRandomOp(b, len(chans), chans, 40)
+		if i+1 < nops && c.rnd.Intn(3) == 0 {
+			// a silent step: the operation is followed by NO query at all, the next operation comes straight after it (what a
+			// query would have computed or cached is not there); the model takes the same transition and the next full
+			// projection is compared with the state reached by both
+			ev["silent"] = true
+			c.emit(ev)
+			continue
+		}
 		proj, chans, err = planProjection(b)
 		if err != nil {
 			return err
@@ -385,6 +393,13 @@ func planEvent(b band.Band, dev []int, nStd int) (M, error) {
 	var pls []lorawan.LinkADRReqPayload
 	res, _ := observeFast(func() error { pls = b.GetLinkADRReqPayloadsForEnabledUplinkChannelIndices(dev); return nil })
 	ev["err"] = res
+	// the same band plans for other devices (one that has nothing, one that has every channel) before the first answer is
+	// looked at: an answer belongs to its caller
+	observeFast(func() error {
+		b.GetLinkADRReqPayloadsForEnabledUplinkChannelIndices(nil)
+		b.GetLinkADRReqPayloadsForEnabledUplinkChannelIndices(b.GetUplinkChannelIndices())
+		return nil
+	})
 	out, encs := []interface{}{}, []int{}
 	for _, p := range pls {
 		out = append(out, lpVal(p))
